@@ -736,6 +736,25 @@ def sym_round(x, n=0):
         sc = 10 ** int(n or 0)
         if x.grid is not None and sc % x.grid == 0:
             return x          # value*sc is an integer: rounding to n decimals is the identity
+        if int(n or 0) >= 6:
+            # fine rounding of a value that is not on a lattice: over-approximated by an uninterpreted function with
+            # |round(x) - x| <= 0.5 * 10^-n and monotonicity (sound for proofs; sat results are confirmed by replay only)
+            c = cur()
+            f = _uf('round%d' % int(n))
+            arg = z3.simplify(x.e)
+            apps = c.uf_apps.setdefault('round%d' % int(n), [])
+            for a0, r0 in apps:
+                if a0.eq(arg):
+                    return SymNum(r0, py=x.py, grid=sc)
+            res = f(arg)
+            half = z3.RealVal(fractions.Fraction(1, 2 * sc))
+            ax = [res - arg <= half, arg - res <= half]
+            for a0, r0 in apps:
+                ax.append(z3.Implies(arg <= a0, res <= r0))
+                ax.append(z3.Implies(arg >= a0, res >= r0))
+            apps.append((arg, res))
+            c.add(*ax)
+            return SymNum(res, py=x.py, grid=sc)
         # round-half-even differs from floor(x+1/2) only on exact ties; ties are forked out
         y = x.e * sc
         k = z3.ToInt(y)
@@ -1856,6 +1875,9 @@ def _round(a, decimals=0, out=None):
     a0 = _objarr(a)
     f = lambda x: sym_round(x, decimals) if is_sym(x) else _np.round(x, decimals)
     r = _np.frompyfunc(f, 1, 1)(a0)
+    if out is not None:
+        _plain(out)[...] = r          # in-place variant writes through to the caller's array
+        return out
     return _wrap(r) if isinstance(r, _np.ndarray) else r
 
 
